@@ -169,6 +169,7 @@ theorem stepAtom_pidStay (cfg : Cfg) (s : State) (a : Atom) (h : a.pidQuiet = tr
     | vps b => simp [Atom.pidQuiet] at h
     | ttx b => simp [Atom.pidQuiet] at h
     | xds ty bytes => simp [Atom.pidQuiet] at h
+    | cpr c0 => simp [Atom.pidQuiet] at h
     | wss b0 b1 =>
       simp only [stepAtom, rxLine]
       exact pidStay_of_net cfg _ _ (rxWss_vpsPid s b0 b1 t) (rxWss_keeps s b0 b1 t).2.2.2.1 (Or.inl ⟨(rxWss_keeps s b0 b1 t).1, rxWss_deb s b0 b1 t⟩)
@@ -273,6 +274,7 @@ theorem stepAtom_vpsPid (cfg : Cfg) (s : State) (a : Atom) :
     | ttx b => left; exact rxTtx_vpsPid cfg s b
     | xds ty bytes => left; exact rxXds_vpsPid _ s ty bytes
     | wss b0 b1 => left; exact rxWss_vpsPid s b0 b1 t
+    | cpr c0 => left; exact (rxCpr_rest s c0).2.1
     | page pgno =>
       left
       simp only [stepAtom]
